@@ -1,7 +1,7 @@
 /-
-Exact acceptance of `rangeRefToCoordinates` (C20: range helpers): it removes
-EVERY `$` from the whole reference, splits at `:` and decodes the first two
-parts, ignoring anything after a second colon.
+Exact acceptance of `rangeRefToCoordinates` (C20: range helpers). Since the
+repair it splits the reference at `:`, requires exactly two parts and decodes
+each part with `CellNameToCoordinates`: it accepts exactly `cell:cell`.
 -/
 import XlModel.Lemmas.Ref6
 import XlModel.RefApi
@@ -9,95 +9,15 @@ import XlModel.RefApi
 namespace XlModel.Ref
 open XlModel
 
-/-- what the lenient decoder accepts, stated on the reference as passed:
-`A:B` or `A:B:junk`, where `A` and `B` are colon-free and become strict
-(relative) cell references once every `$` in them has been removed. -/
-def RangeLoose (ref : List Char) (c1 r1 c2 r2 : Nat) : Prop :=
-  ∃ A B tail, ref = A ++ ':' :: B ++ tail ∧ (tail = [] ∨ ∃ j, tail = ':' :: j) ∧
-    (∀ c ∈ A, isColon c = false) ∧ (∀ c ∈ B, isColon c = false) ∧
-    Shape (stripDollar A) c1 r1 ∧ Shape (stripDollar B) c2 r2
-
 /-- the strict reading: `A:B`, both sides strict A1 references in the grid -/
 def RangeStrict (ref : List Char) (c1 r1 c2 r2 : Nat) : Prop :=
   ∃ A B, ref = A ++ ':' :: B ∧ Shape A c1 r1 ∧ Shape B c2 r2
-
-theorem colon_not_dollar {c : Char} (h : isColon c = true) : isDollar c = false := by
-  simp only [isColon, isDollar, beq_iff_eq, beq_eq_false_iff_ne] at *
-  omega
-
-theorem isDollar_not_colon {c : Char} (h : isDollar c = true) : isColon c = false := by
-  simp only [isColon, isDollar, beq_iff_eq, beq_eq_false_iff_ne] at *
-  omega
 
 theorem isColon_eq {c : Char} (h : isColon c = true) : c = ':' := by
   have hn : c.toNat = 58 := by simpa [isColon] using h
   have h2 : Char.ofNat c.toNat = c := Char.ofNat_toNat c
   rw [hn] at h2
   exact h2.symm
-
-theorem stripDollar_append (a b : List Char) :
-    stripDollar (a ++ b) = stripDollar a ++ stripDollar b := by
-  unfold stripDollar; exact List.filter_append ..
-
-theorem stripDollar_colon_cons (b : List Char) :
-    stripDollar (':' :: b) = ':' :: stripDollar b := by
-  have : (!isDollar ':') = true := by decide
-  simp [stripDollar, List.filter_cons, this]
-
-theorem stripDollar_nocolon {a : List Char} (h : ∀ c ∈ a, isColon c = false) :
-    ∀ c ∈ stripDollar a, isColon c = false := by
-  intro c hc
-  exact h c (List.mem_filter.mp hc).1
-
-theorem nocolon_of_stripDollar {a : List Char} (h : ∀ c ∈ stripDollar a, isColon c = false) :
-    ∀ c ∈ a, isColon c = false := by
-  intro c hc
-  cases hcol : isColon c with
-  | false => rfl
-  | true =>
-    have : c ∈ stripDollar a := List.mem_filter.mpr ⟨hc, by simp [colon_not_dollar hcol]⟩
-    rw [h c this] at hcol; cases hcol
-
-/-- a colon in the stripped string comes from a colon in the string itself -/
-theorem stripDollar_eq_append_colon (ref a t : List Char)
-    (h : stripDollar ref = a ++ ':' :: t) (ha : ∀ c ∈ a, isColon c = false) :
-    ∃ A T, ref = A ++ ':' :: T ∧ stripDollar A = a ∧ stripDollar T = t ∧
-      ∀ c ∈ A, isColon c = false := by
-  induction ref generalizing a with
-  | nil => simp [stripDollar] at h
-  | cons x xs ih =>
-    cases hx : isDollar x with
-    | true =>
-      have e : stripDollar (x :: xs) = stripDollar xs := by simp [stripDollar, List.filter_cons, hx]
-      rw [e] at h
-      obtain ⟨A, T, rfl, hA, hT, hAc⟩ := ih a h ha
-      refine ⟨x :: A, T, rfl, ?_, hT, ?_⟩
-      · simp only [stripDollar, List.filter_cons, hx, Bool.not_true, Bool.false_eq_true, if_false]
-        exact hA
-      · intro c hc
-        rcases List.mem_cons.mp hc with rfl | hc
-        · exact isDollar_not_colon hx
-        · exact hAc c hc
-    | false =>
-      have e : stripDollar (x :: xs) = x :: stripDollar xs := by
-        simp [stripDollar, List.filter_cons, hx]
-      rw [e] at h
-      cases a with
-      | nil =>
-        simp only [List.nil_append, List.cons.injEq] at h
-        obtain ⟨rfl, ht⟩ := h
-        exact ⟨[], xs, rfl, rfl, ht, by simp⟩
-      | cons y a' =>
-        simp only [List.cons_append, List.cons.injEq] at h
-        obtain ⟨rfl, ht⟩ := h
-        obtain ⟨A, T, rfl, hA, hT, hAc⟩ := ih a' ht (fun c hc => ha c (by simp [hc]))
-        refine ⟨x :: A, T, rfl, ?_, hT, ?_⟩
-        · simp only [stripDollar, List.filter_cons, hx, Bool.not_false, if_true]
-          exact congrArg _ hA
-        · intro c hc
-          rcases List.mem_cons.mp hc with rfl | hc
-          · exact ha c (by simp)
-          · exact hAc c hc
 
 /-- shape of the result list of `strings.Split(s, ":")` -/
 theorem splitColonAux_cons {cur xs p : List Char} {ps : List (List Char)}
@@ -138,11 +58,9 @@ theorem splitColonAux_ne_nil (cur xs : List Char) : splitColonAux cur xs ≠ [] 
     · simp
     · exact ih _
 
-/-- at least two parts: the string is `a:b` or `a:b:junk` -/
-theorem splitColon_two_parts {s a b : List Char} {rest : List (List Char)}
-    (h : splitColon s = a :: b :: rest) :
-    ∃ tail, s = a ++ ':' :: b ++ tail ∧ (tail = [] ∨ ∃ j, tail = ':' :: j) ∧
-      (∀ c ∈ a, isColon c = false) ∧ (∀ c ∈ b, isColon c = false) := by
+/-- exactly two parts: the string is `a:b` with colon-free sides -/
+theorem splitColon_exactly_two {s a b : List Char} (h : splitColon s = [a, b]) :
+    s = a ++ ':' :: b ∧ (∀ c ∈ a, isColon c = false) ∧ (∀ c ∈ b, isColon c = false) := by
   unfold splitColon at h
   obtain ⟨a', ha, hac, hr⟩ := splitColonAux_cons h
   simp only [List.reverse_nil, List.nil_append] at ha
@@ -152,83 +70,9 @@ theorem splitColon_two_parts {s a b : List Char} {rest : List (List Char)}
   · obtain ⟨b', hb, hbc, hr2⟩ := splitColonAux_cons hps.symm
     simp only [List.reverse_nil, List.nil_append] at hb
     subst hb
-    rcases hr2 with ⟨_, hy⟩ | ⟨z, hy, _⟩
-    · exact ⟨[], by rw [hs, hy]; simp, Or.inl rfl, hac, hbc⟩
-    · exact ⟨':' :: z, by rw [hs, hy]; simp, Or.inr ⟨z, rfl⟩, hac, hbc⟩
-
-/-- conversely -/
-theorem splitColon_of_two_parts (a b tail : List Char) (ht : tail = [] ∨ ∃ j, tail = ':' :: j)
-    (ha : ∀ c ∈ a, isColon c = false) (hb : ∀ c ∈ b, isColon c = false) :
-    ∃ rest, splitColon (a ++ ':' :: b ++ tail) = a :: b :: rest := by
-  unfold splitColon
-  have e : a ++ ':' :: b ++ tail = a ++ ':' :: (b ++ tail) := by simp
-  rw [e, splitColonAux_colon [] a _ ha]
-  rcases ht with rfl | ⟨j, rfl⟩
-  · rw [List.append_nil, splitColonAux_nocolon [] b hb]
-    exact ⟨[], by simp⟩
-  · rw [splitColonAux_colon [] b j hb]
-    exact ⟨splitColonAux [] j, by simp⟩
-
-/-- **exact acceptance of `rangeRefToCoordinates`** -/
-theorem rangeRef_ok_iff (ref : List Char) (c1 r1 c2 r2 : Int) :
-    rangeRefToCoordinates ref = .ok (c1, r1, c2, r2) ↔
-      ∃ n1 m1 n2 m2 : Nat, c1 = n1 ∧ r1 = m1 ∧ c2 = n2 ∧ r2 = m2 ∧ RangeLoose ref n1 m1 n2 m2 := by
-  constructor
-  · intro h
-    unfold rangeRefToCoordinates at h
-    split at h
-    · rename_i a b rest hsp
-      split at h
-      · cases h
-      · rename_i x1 y1 hd1
-        split at h
-        · cases h
-        · rename_i x2 y2 hd2
-          simp only [Except.ok.injEq, Prod.mk.injEq] at h
-          obtain ⟨rfl, rfl, rfl, rfl⟩ := h
-          obtain ⟨n1, m1, hs1, rfl, rfl⟩ := shape_of_decode hd1
-          obtain ⟨n2, m2, hs2, rfl, rfl⟩ := shape_of_decode hd2
-          refine ⟨n1, m1, n2, m2, rfl, rfl, rfl, rfl, ?_⟩
-          obtain ⟨tail, hs, ht, hac, hbc⟩ := splitColon_two_parts hsp
-          have hs' : stripDollar ref = a ++ ':' :: (b ++ tail) := by
-            unfold stripDollar; rw [hs]; simp
-          obtain ⟨A, T, rfl, hA, hT, hAc⟩ := stripDollar_eq_append_colon ref a _ hs' hac
-          rcases ht with rfl | ⟨j, rfl⟩
-          · rw [List.append_nil] at hT
-            refine ⟨A, T, [], by simp, Or.inl rfl, hAc, ?_, by rw [hA]; exact hs1,
-              by rw [hT]; exact hs2⟩
-            exact nocolon_of_stripDollar (by rw [hT]; exact hbc)
-          · obtain ⟨B, J, rfl, hB, _, hBc⟩ := stripDollar_eq_append_colon T b j hT hbc
-            exact ⟨A, B, ':' :: J, by simp, Or.inr ⟨J, rfl⟩, hAc, hBc, by rw [hA]; exact hs1,
-              by rw [hB]; exact hs2⟩
-    · cases h
-  · rintro ⟨n1, m1, n2, m2, rfl, rfl, rfl, rfl, A, B, tail, rfl, ht, hAc, hBc, hs1, hs2⟩
-    have hst : stripDollar (A ++ ':' :: B ++ tail) =
-        stripDollar A ++ ':' :: stripDollar B ++ stripDollar tail := by
-      rw [stripDollar_append, stripDollar_append, stripDollar_colon_cons]
-    have ht' : stripDollar tail = [] ∨ ∃ j, stripDollar tail = ':' :: j := by
-      rcases ht with rfl | ⟨j, rfl⟩
-      · exact Or.inl rfl
-      · exact Or.inr ⟨stripDollar j, stripDollar_colon_cons j⟩
-    obtain ⟨rest, hsp⟩ := splitColon_of_two_parts (stripDollar A) (stripDollar B) _ ht'
-      (stripDollar_nocolon hAc) (stripDollar_nocolon hBc)
-    rw [← hst] at hsp
-    unfold rangeRefToCoordinates
-    unfold stripDollar at hsp
-    rw [hsp]
-    have d1 := decode_of_shape hs1
-    have d2 := decode_of_shape hs2
-    unfold stripDollar at d1 d2
-    simp only [d1, d2]
-
-/-- stripping a strict reference leaves a strict (relative) reference of the same cell -/
-theorem shape_stripDollar {s : List Char} {c r : Nat} (h : Shape s c r) :
-    Shape (stripDollar s) c r := by
-  obtain ⟨d1, L, d2, D, rfl, h1, h2, hL, hLl, hD, hDd, hc, hc1, hc2, hr, hr1, hr2⟩ := h
-  refine ⟨[], L, [], D, ?_, Or.inl rfl, Or.inl rfl, hL, hLl, hD, hDd, hc, hc1, hc2, hr, hr1, hr2⟩
-  unfold stripDollar
-  rw [filter_dollar_encoded d1 L d2 D h1 h2 hLl hDd]
-  simp
+    rcases hr2 with ⟨_, hy⟩ | ⟨z, _, hz⟩
+    · exact ⟨by rw [hs, hy], hac, hbc⟩
+    · exact absurd hz.symm (splitColonAux_ne_nil [] z)
 
 theorem shape_nocolon {s : List Char} {c r : Nat} (h : Shape s c r) :
     ∀ x ∈ s, isColon x = false := by
@@ -246,12 +90,49 @@ theorem shape_nocolon {s : List Char} {c r : Nat} (h : Shape s c r) :
   · exact hd d2 h2 x hx
   · exact isDigit_not_colon (hDd x hx)
 
-/-- every strict range is a loose range denoting the same corners -/
-theorem rangeLoose_of_strict {ref : List Char} {c1 r1 c2 r2 : Nat}
-    (h : RangeStrict ref c1 r1 c2 r2) : RangeLoose ref c1 r1 c2 r2 := by
-  obtain ⟨A, B, rfl, hA, hB⟩ := h
-  exact ⟨A, B, [], by simp, Or.inl rfl, shape_nocolon hA, shape_nocolon hB,
-    shape_stripDollar hA, shape_stripDollar hB⟩
+/-- the only way to cut `A:B` (colon-free sides) at a colon -/
+theorem colon_cut_unique {X Y A B : List Char} (h : X ++ ':' :: Y = A ++ ':' :: B)
+    (hA : ∀ c ∈ A, isColon c = false) (hB : ∀ c ∈ B, isColon c = false) : X = A ∧ Y = B := by
+  have hc : isColon ':' = true := by decide
+  rcases List.append_eq_append_iff.mp h with ⟨a', hA', h2⟩ | ⟨c', hX, h2⟩
+  · cases a' with
+    | nil => simp at h2; subst hA'; simp [h2]
+    | cons x xs =>
+      simp only [List.cons_append, List.cons.injEq] at h2
+      have : isColon ':' = false := hA ':' (by rw [hA']; simp [← h2.1])
+      rw [hc] at this; cases this
+  · cases c' with
+    | nil => simp at h2; subst hX; simp [h2]
+    | cons x xs =>
+      simp only [List.cons_append, List.cons.injEq] at h2
+      have : isColon ':' = false := hB ':' (by rw [h2.2]; simp)
+      rw [hc] at this; cases this
+
+/-- **exact acceptance of `rangeRefToCoordinates`**: exactly the strict ranges -/
+theorem rangeRef_ok_iff (ref : List Char) (c1 r1 c2 r2 : Int) :
+    rangeRefToCoordinates ref = .ok (c1, r1, c2, r2) ↔
+      ∃ n1 m1 n2 m2 : Nat, c1 = n1 ∧ r1 = m1 ∧ c2 = n2 ∧ r2 = m2 ∧ RangeStrict ref n1 m1 n2 m2 := by
+  constructor
+  · intro h
+    unfold rangeRefToCoordinates at h
+    split at h
+    · rename_i a b hsp
+      split at h
+      · cases h
+      · rename_i x1 y1 hd1
+        split at h
+        · cases h
+        · rename_i x2 y2 hd2
+          simp only [Except.ok.injEq, Prod.mk.injEq] at h
+          obtain ⟨rfl, rfl, rfl, rfl⟩ := h
+          obtain ⟨n1, m1, hs1, rfl, rfl⟩ := shape_of_decode hd1
+          obtain ⟨n2, m2, hs2, rfl, rfl⟩ := shape_of_decode hd2
+          exact ⟨n1, m1, n2, m2, rfl, rfl, rfl, rfl, a, b, (splitColon_exactly_two hsp).1, hs1, hs2⟩
+    · cases h
+  · rintro ⟨n1, m1, n2, m2, rfl, rfl, rfl, rfl, A, B, rfl, hs1, hs2⟩
+    unfold rangeRefToCoordinates
+    rw [splitColon_two A B (shape_nocolon hs1) (shape_nocolon hs2)]
+    simp only [decode_of_shape hs1, decode_of_shape hs2]
 
 /-- the specification parser of ranges is the strict reading -/
 theorem parseRangeStrict_iff (ref : List Char) (c1 r1 c2 r2 : Nat) :
@@ -265,19 +146,7 @@ theorem parseRangeStrict_iff (ref : List Char) (c1 r1 c2 r2 : Nat) :
       · rename_i x1 y1 x2 y2 hp1 hp2
         simp only [Option.some.injEq, Prod.mk.injEq] at h
         obtain ⟨rfl, rfl, rfl, rfl⟩ := h
-        obtain ⟨tail, hs, ht, _, _⟩ := splitColon_two_parts hsp
-        rcases ht with rfl | ⟨j, rfl⟩
-        · exact ⟨a, b, by rw [hs]; simp, shape_of_parseA1 hp1, shape_of_parseA1 hp2⟩
-        · -- three or more parts: `splitColon` would have returned a longer list
-          exfalso
-          have hb := shape_nocolon (shape_of_parseA1 hp2)
-          have ha := shape_nocolon (shape_of_parseA1 hp1)
-          have e : a ++ ':' :: b ++ ':' :: j = a ++ ':' :: (b ++ ':' :: j) := by simp
-          rw [hs, e] at hsp
-          unfold splitColon at hsp
-          rw [splitColonAux_colon [] a _ ha, splitColonAux_colon [] b j hb] at hsp
-          simp only [List.reverse_nil, List.nil_append, List.cons.injEq, true_and] at hsp
-          exact splitColonAux_ne_nil [] j hsp
+        exact ⟨a, b, (splitColon_exactly_two hsp).1, shape_of_parseA1 hp1, shape_of_parseA1 hp2⟩
       · cases h
     · cases h
   · rintro ⟨A, B, rfl, hA, hB⟩
